@@ -116,6 +116,36 @@ def check_two_writers():
         outs.append(out.getvalue())
     if outs[0] != outs[1]:
         return [({'kind': 'writers_share_state'}, 'second default-trailer writer produced different bytes')]
+    # two writers alive at the same time, with different trailers / markers / record lengths, written to in turn: each file is
+    # the file its writer produces alone
+    from TotalDepth.LIS.core import PhysRec
+    cfgs = [dict(hasRecNum=True, fileNum=7, hasCheckSum=True, tif=True, prlen=16), dict(hasRecNum=False, fileNum=None, hasCheckSum=False, tif=False, prlen=12),
+            dict(hasRecNum=True, fileNum=None, hasCheckSum=False, tif=False, prlen=64)]
+    recs = make_records([9, 2, 30])
+
+    def writer(c, out):
+        return File.FileWrite(out, 'x', keepGoing=False, hasTif=c['tif'], thePrLen=c['prlen'],
+                              thePrt=PhysRec.PhysRecTail(hasRecNum=c['hasRecNum'], fileNum=c['fileNum'], hasCheckSum=c['hasCheckSum']))
+    solo = []
+    for c in cfgs:
+        out = io.BytesIO()
+        w = writer(c, out)
+        for r in recs:
+            w.write(r)
+        solo.append(out.getvalue())
+    for order in ((0, 1, 2), (2, 1, 0), (1, 2, 0)):
+        outs = [io.BytesIO() for _ in cfgs]
+        ws = {}
+        for i in order:                 # created in this order ...
+            ws[i] = writer(cfgs[i], outs[i])
+        for r in recs:                  # ... and written to in turn, in index order
+            for i in range(len(cfgs)):
+                ws[i].write(r)
+        for i in range(len(cfgs)):
+            if outs[i].getvalue() != solo[i]:
+                return [({'kind': 'writers_share_state', 'simultaneous': True},
+                         'three writers alive at once (created in order %r, written to in turn): writer %d (%r) produced %d bytes that differ from the %d it writes alone'
+                         % (order, i, cfgs[i], len(outs[i].getvalue()), len(solo[i])))]
     return []
 
 
